@@ -502,6 +502,12 @@ func flight4Generate(
 				content = handshake.Handshake{Message: certReq}
 			}
 
+			if _, err = content.Message.Marshal(); err != nil {
+				// E.g. more certificate authorities than the message can name:
+				// tell the client instead of leaving it waiting.
+				return nil, &alert.Alert{Level: alert.Fatal, Description: alert.InternalError}, err
+			}
+
 			pkts = append(pkts, &dtlsflight.Packet{
 				Record: &recordlayer.RecordLayer{
 					Header: recordlayer.Header{
